@@ -16,6 +16,58 @@ pub fn run_job(ctx: &mut WorkerCtx, job: &Value) -> JobOutput {
         "env" => env::run(ctx, job),
         "model" => model::run(ctx, job),
         "proc" => procsim::run(ctx, job),
+        "probe_entropy" => {
+            // what the entropy / clock seam looks like from inside this process
+            let set: std::collections::HashSet<u32> = (0..16).collect();
+            let order: Vec<String> = set.iter().map(|x| x.to_string()).collect();
+            let t = std::time::SystemTime::now()
+                .duration_since(std::time::UNIX_EPOCH)
+                .map(|d| d.as_secs())
+                .unwrap_or(0);
+            JobOutput {
+                result: json!({"class":"probe","hashset_order":order.join(","),"time":t}),
+                tainted: false,
+            }
+        }
+        "canary_deadlock" => {
+            // two simulated threads take two hooked locks in opposite order
+            crate::baton::install_hooks();
+            static A: u8 = 0;
+            static B: u8 = 1;
+            let t0: Box<dyn FnOnce() + Send> = Box::new(|| {
+                let _a = bemodel::verif_hooks::lock_scope(&A, "A");
+                bemodel::verif_hooks::point("between");
+                let _b = bemodel::verif_hooks::lock_scope(&B, "B");
+            });
+            let t1: Box<dyn FnOnce() + Send> = Box::new(|| {
+                let _b = bemodel::verif_hooks::lock_scope(&B, "B");
+                bemodel::verif_hooks::point("between");
+                let _a = bemodel::verif_hooks::lock_scope(&A, "A");
+            });
+            let rep = crate::baton::run_threads(vec![t0, t1], crate::baton::Strategy::RoundRobin { q: 0 }, 1, 1_000_000);
+            JobOutput {
+                result: json!({"class":"canary","report":serde_json::to_value(&rep).unwrap()}),
+                tainted: true,
+            }
+        }
+        "canary_poison" => {
+            // a harness-made panic while a climate table is locked, then a healthy computation
+            let first = crate::panics::contain(|| {
+                let _g = bemodel::climatedata::JULYRADDATA.lock();
+                panic!("canary: panic under the JULYRADDATA guard");
+            });
+            let v = model::base_value("bemodel/tests/data/cubo.json");
+            let txt = serde_json::to_string(&v).unwrap();
+            let second = crate::panics::contain(|| {
+                let m = bemodel::Model::from_json(&txt).unwrap();
+                m.energy_indicators().area_ref
+            });
+            JobOutput {
+                result: json!({"class":"canary","first_panicked":first.is_err(),
+                    "second_computation": match second { Ok(_) => "returned".to_string(), Err(p) => format!("panicked: {}", p.site.msg) }}),
+                tainted: true,
+            }
+        }
         "canary_abort" => {
             // selftest only: a worker death must be attributed to the job in flight
             std::process::abort();
